@@ -225,6 +225,8 @@ class ArrayTheory:
         qf = list(getattr(st, 'qfacts', []))
         if not qf:
             return []
+        if rounds is None and getattr(self, '_clause_rounds', None) is not None:
+            rounds = self._clause_rounds
         if rounds is None:
             # one eager E-matching round; what it misses is found by model-based refinement of the solver's answer (refine below).
             # A contract may ask for more eager rounds (inst_rounds) where refinement alone does not converge.
@@ -480,6 +482,15 @@ class ArrayTheory:
         self.members_axiom(st, a)
         self.members_axiom(st, b)
         self.add_elem_lemma(st, [a, b], lambda x: z3.Implies(t, cont(av, x) == cont(bv, x)), name='equal-sequences-same-members')
+        if (hasattr(a, 'concat_of') or hasattr(b, 'concat_of')) and not getattr(self, '_in_seq_eq_distinct', False):
+            # equal sequences are distinct together (two instances of each definition; stated so that the concat-distinct lemma,
+            # which speaks about the concatenation itself, reaches the object that was built from it)
+            self._in_seq_eq_distinct = True
+            try:
+                da, db = self.distinct_term(st, a), self.distinct_term(st, b)
+            finally:
+                self._in_seq_eq_distinct = False
+            st.assume(z3.Implies(t, da == db))
         pa, pb = a.at(self, st, z3.IntVal(0)), b.at(self, st, z3.IntVal(0))
         if isinstance(pa, E.Num) and isinstance(pb, E.Num):
             f = self.uf('prod', V, I, R)
@@ -512,6 +523,7 @@ class ArrayTheory:
             return z3.Implies(z3.And(*g), t) if g else t
         if getattr(self, '_spec_polarity', 'assume') == 'prove':
             k0 = self.fresh('sk_' + var, I)
+            self._last_skolems = getattr(self, '_last_skolems', []) + [k0]
             return E.BoolV(body(self, st, k0))
         marker = self.fresh('qf', B)
         self.add_qfact(st, body, name=var, marker=marker)
@@ -792,6 +804,17 @@ class ArrayTheory:
 
     def distinct_term(self, st, a):
         d = self.defined_bool(st, 'distinct', a.n, lambda e, s, k: e.first_index(s, a, a.at(e, s, k))[0] == k)
+        if hasattr(a, 'concat_of') and not getattr(self, '_in_concat_lemma', False):
+            # lemma `concat-distinct` of the sequence theory (machine-checked in its injective form by pv/vc/lemmas.py on every run):
+            #   l distinct, r distinct, no element of r occurs in l   ->   l + r distinct
+            l, r = a.concat_of
+            self._in_concat_lemma = True
+            try:
+                dl, dr = self.distinct_term(st, l), self.distinct_term(st, r)
+                disj = self.defined_bool(st, 'disjoint', r.n, lambda e, s, k: z3.Not(e.membership(s, l, r.at(e, s, k))))
+            finally:
+                self._in_concat_lemma = False
+            st.assume(z3.Implies(z3.And(dl, dr, disj), d))
         reg = dict(st.__dict__.get('_card', {}))
         reg.setdefault('dist', []).append((a, d))
         st._card = reg
